@@ -15,7 +15,7 @@ def run_checks(props):
     out = {}
     for p in props:
         r = sh('cd %s && ./check %s' % (VERIF, p))
-        first = [l for l in r.stdout.split('\n') if l.startswith(('VIOLATION', 'OK', 'UNDECIDED', 'KNOWN'))]
+        first = [l for l in r.stdout.split('\n') if l.startswith(('VIOLATION', 'OK', 'UNDECIDED'))]  # KNOWN-FINDING lines come first and do not decide
         out[p] = dict(rc=r.returncode, line=(first[0] if first else r.stdout[-200:])[:300])
     return out
 
